@@ -27,7 +27,7 @@ LEVEL_NOTE = ("Reference = closed-form derivatives of sin/cos. Tolerance 1e-9 sc
               "sine system. Shift sets with a (near-)singular sine system (cond > 1e6) are skipped. Frequencies outside the alphabet "
               "and more than 6 frequencies are not explored.")
 DESIGN_REF = "5.6 C35"
-PARALLEL = True
+PARALLEL = False
 RULE = ("full grid frequency set x shift mode x order (single) and ordered tuples x shift mode x orders (multi); "
         "non-trivial = more than one frequency or order > 1")
 
